@@ -4,7 +4,7 @@
     an arbitrary function: nothing is assumed of it, so a refusal can only be
     escaped through an *exhibited* collision. *)
 From Coq Require Import List NArith Bool Arith.
-From Atlas Require Import Base.Bytes Exec.ExecModel Exec.ExecProofs.
+From Atlas Require Import Base.Bytes Exec.ExecModel Exec.ExecProofs Exec.StoreModel Exec.StoreProofs.
 Import ListNotations.
 
 Section C12.
@@ -55,11 +55,119 @@ Theorem C12_tail_edit_resumes :
     (forall v', v' <> f_version f -> tbl_get t' v' = tbl_get t v').
 Proof. exact (C12_tail_lemma hash hash_eqb HS hash_eqb_spec). Qed.
 
+(** ** The storage layer (EntRevisions) under the executor -- M-STORE.
+
+    The three theorems above are about [execute] over a table [t] with
+    [tbl_get] / [tbl_put].  What the CLI runs is [Execute] over [EntRevisions];
+    [execute_st] is that composition, every storage call may fail.  The
+    contract of the store the theorems rest on is exactly:
+      (a) a lookup returns the stored row with all its columns, NotExist
+          exactly when there is no row, and the error itself when the SELECT
+          fails (never NotExist for an error);
+      (b) an upsert overwrites every column of the row (what is read back is
+          the revision written) and no other row; a failed upsert changes nothing;
+      (c) ReadRevisions lists the rows by version ([read_revisions], M-PEND).
+    (a) and (b) are theorems of the model of EntRevisions below; that the real
+    EntRevisions has them is what stages cli / fault of the tie test through the
+    real binary; [C12_lax_lookup_refuted] shows (a) is needed. *)
+
+(** (a) *)
+Theorem C12_store_read_exact :
+  forall (t : list (rev hash)) (fs : list bool) (v : bytes),
+  read_revision hash t fs v =
+  (if hd false fs then RdError
+   else match tbl_get t v with Some r => RdRow r | None => RdNotExist end, tl fs).
+Proof. exact (read_revision_spec hash). Qed.
+
+(** (b) *)
+Theorem C12_store_upsert_overwrites :
+  forall (t : list (rev hash)) fs r ok t' fs' e,
+  write t fs r = (ok, t', fs', e) ->
+  (ok = true -> forall fs2, hd false fs2 = false ->
+     fst (read_revision hash t' fs2 (r_version r)) = RdRow r) /\
+  (ok = false -> t' = t) /\
+  (forall v, v <> r_version r -> tbl_get t' v = tbl_get t v).
+Proof.
+  intros t fs r ok t' fs' e W. split; [|split].
+  - intros Hok fs2 Hf. exact (write_then_read hash t fs r ok t' fs' e fs2 W Hok Hf).
+  - exact (write_fail_unchanged hash t fs r ok t' fs' e W).
+  - intros v Hv. exact (write_then_read_other hash t fs r ok t' fs' e v W Hv).
+Qed.
+
+(** 4. Reading the revision fails (a transient error of the SELECT): the run
+    fails with that error, executes nothing, writes nothing, the table is
+    unchanged -- and no following file runs, in both transaction modes. *)
+Theorem C12_read_error_refuses :
+  forall (txfile : bool) (f : file) (rest : list file) (t : list (rev hash)) (fs : list bool),
+  hd false fs = true ->
+  execute_st hash hash_eqb HS f t fs = (SReadErr, t, tl fs, []) /\
+  apply_files hash hash_eqb HS txfile (f :: rest) t fs = (SReadErr, t, tl fs, [], []).
+Proof. exact (C12_read_error_lemma hash hash_eqb HS). Qed.
+
+(** 5. = 1 over the store: the applied part was edited -- whatever storage call
+    fails (the lookup, the first write, the deferred write), no statement is
+    executed and the table is what it was; the run never ends as Done; with no
+    fault on the lookup and the first write it is HistoryChanged. *)
+Theorem C12_refuse_any_storage_fault :
+  forall (t : list (rev hash)) (fs : list bool) (f : file) (r : rev hash) (old : list bytes),
+  tbl_get t (f_version f) = Some r ->
+  0 < r_applied r -> recorded hash HS r old ->
+  firstn (r_applied r) (f_stmts f) <> firstn (r_applied r) old ->
+  forall o t' fs' es, execute_st hash hash_eqb HS f t fs = (o, t', fs', es) ->
+  collision_at hash HS old (f_stmts f) (r_applied r) \/
+  (exec_events es = [] /\ t' = t /\ o <> SExec ODone /\
+   (hd false fs = true -> o = SReadErr /\ es = []) /\
+   (hd false fs = false -> hd false (tl fs) = true -> o = SExec OWriteErr) /\
+   (hd false fs = false -> hd false (tl fs) = false ->
+      exists i, o = SExec (OHistory i) /\ 1 <= i <= r_applied r)).
+Proof. exact (C12_refuse_st_lemma hash hash_eqb HS hash_eqb_spec). Qed.
+
+(** 6. ... and the file loop of `atlas migrate apply` stops at the refused file:
+    nothing of it or of any following file is executed or committed, the
+    table is what it was, under --tx-mode none and file, for every fault stream. *)
+Theorem C12_refuse_stops_apply :
+  forall (txfile : bool) (t : list (rev hash)) (fs : list bool) (f : file) (rest : list file)
+         (r : rev hash) (old : list bytes),
+  tbl_get t (f_version f) = Some r ->
+  0 < r_applied r -> recorded hash HS r old ->
+  firstn (r_applied r) (f_stmts f) <> firstn (r_applied r) old ->
+  forall o t' fs' es j, apply_files hash hash_eqb HS txfile (f :: rest) t fs = (o, t', fs', es, j) ->
+  collision_at hash HS old (f_stmts f) (r_applied r) \/
+  (exec_events es = [] /\ j = [] /\ t' = t /\ o <> SExec ODone).
+Proof. exact (C12_refuse_apply_lemma hash hash_eqb HS hash_eqb_spec). Qed.
+
+(** 7. = 3 over the store. *)
+Theorem C12_tail_edit_resumes_store :
+  forall (t : list (rev hash)) (f : file) (r : rev hash) (old : list bytes),
+  tbl_get t (f_version f) = Some r -> recorded hash HS r old ->
+  firstn (r_applied r) (f_stmts f) = firstn (r_applied r) old ->
+  exists t' es r',
+    execute_st hash hash_eqb HS f t [] = (SExec ODone, t', [], es) /\
+    journal es = map (pair (f_version f)) (skipn (r_applied r) (f_stmts f)) /\
+    tbl_get t' (f_version f) = Some r' /\
+    r_applied r' = length (f_stmts f) /\ r_total r' = length (f_stmts f) /\ r_hashes r' = [] /\
+    (forall v', v' <> f_version f -> tbl_get t' v' = tbl_get t v').
+Proof. exact (C12_tail_st_lemma hash hash_eqb HS hash_eqb_spec). Qed.
+
+(** 8. = 2 over the store: no panic, whatever the storage does. *)
+Theorem C12_no_panic_store :
+  forall (f : file) (t : list (rev hash)) (fs : list bool),
+  (forall r, tbl_get t (f_version f) = Some r -> r_applied r <= length (r_hashes r)) ->
+  forall o t' fs' es, execute_st hash hash_eqb HS f t fs = (o, t', fs', es) -> o <> SExec OPanic.
+Proof. exact (C12_no_panic_st_lemma hash hash_eqb HS hash_eqb_spec). Qed.
+
 End C12.
 
 Print Assumptions C12_refuse.
 Print Assumptions C12_no_panic.
 Print Assumptions C12_tail_edit_resumes.
+Print Assumptions C12_store_read_exact.
+Print Assumptions C12_store_upsert_overwrites.
+Print Assumptions C12_read_error_refuses.
+Print Assumptions C12_refuse_any_storage_fault.
+Print Assumptions C12_refuse_stops_apply.
+Print Assumptions C12_tail_edit_resumes_store.
+Print Assumptions C12_no_panic_store.
 
 (** Non-vacuity: a concrete table/file meeting the hypotheses of 1 and 3,
     with [HS] the identity on byte strings (a legitimate instance). *)
@@ -81,3 +189,70 @@ Example C12_tail_nonvacuous :
   firstn (r_applied ex_rev) (f_stmts ex_file_tail) = firstn (r_applied ex_rev) ex_old /\
   fst (fst (fst (execute bytes bytes_eqb ex_HS ex_file_tail [ex_rev] []))) = ODone.
 Proof. vm_compute. repeat split; auto. Qed.
+
+(** ** the store: non-vacuity and the witness that clause (a) is needed *)
+Definition ex_file2 : file := mkFile [50%N] [[90%N]] false.
+
+Example C12_store_read_exact_nonvacuous :
+  read_revision bytes [ex_rev] [false] [49%N] = (RdRow ex_rev, []) /\
+  read_revision bytes [ex_rev] [false] [50%N] = (RdNotExist, []) /\
+  read_revision bytes [ex_rev] [true] [49%N] = (RdError, []).
+Proof. vm_compute. auto. Qed.
+
+Example C12_store_upsert_nonvacuous :
+  let r' := mkRev [49%N] 3 4 [] false 2%N in
+  exists t', write [ex_rev] [] r' = (true, t', [], EWrite r' true) /\
+             fst (read_revision bytes t' [] [49%N]) = RdRow r'.
+Proof. vm_compute. eexists; split; reflexivity. Qed.
+
+Example C12_read_error_nonvacuous :
+  execute_st bytes bytes_eqb ex_HS ex_file_tail [ex_rev] [true] = (SReadErr, [ex_rev], [], []).
+Proof. vm_compute. reflexivity. Qed.
+
+(** every single storage fault on the edited-prefix file: nothing executed, table unchanged *)
+Example C12_refuse_any_storage_fault_nonvacuous :
+  forallb (fun fs =>
+    match execute_st bytes bytes_eqb ex_HS ex_file_changed [ex_rev] fs with
+    | (o, t', _, es) =>
+        match exec_events es with [] => true | _ => false end &&
+        match t' with [r] => Nat.eqb (r_applied r) 2 && Nat.eqb (r_total r) 3 && Nat.eqb (length (r_hashes r)) 2 | _ => false end &&
+        match o with SExec ODone => false | _ => true end
+    end) [[]; [true]; [false; true]; [false; false; true]] = true /\
+  fst (fst (fst (execute_st bytes bytes_eqb ex_HS ex_file_changed [ex_rev] []))) = SExec (OHistory 2).
+Proof. vm_compute. auto. Qed.
+
+Example C12_refuse_stops_apply_nonvacuous :
+  apply_files bytes bytes_eqb ex_HS true [ex_file_changed; ex_file2] [ex_rev] [] =
+    (SExec (OHistory 2), [ex_rev], [], [EWrite ex_rev true; EWrite ex_rev true], []) /\
+  fst (fst (fst (fst (apply_files bytes bytes_eqb ex_HS false [ex_file_changed; ex_file2] [ex_rev] [])))) = SExec (OHistory 2).
+Proof. vm_compute. auto. Qed.
+
+Example C12_tail_store_nonvacuous :
+  fst (fst (fst (execute_st bytes bytes_eqb ex_HS ex_file_tail [ex_rev] []))) = SExec ODone /\
+  snd (apply_files bytes bytes_eqb ex_HS false [ex_file_tail; ex_file2] [ex_rev] []) =
+    [([49%N], [68%N]); ([49%N], [69%N]); ([50%N], [90%N])].
+Proof. vm_compute. auto. Qed.
+
+(** Clause (a) is needed. With a store that reports a failing lookup as
+    "revision does not exist" ([execute_st_lax]: `if err != nil { return nil,
+    ErrRevisionNotExist }` in EntRevisions.ReadRevision), one transient error of
+    the SELECT makes the executor run the edited, partially applied file again
+    from its first statement and replace the stored revision by a fresh one:
+    the hypotheses of 5 hold, its conclusion does not (no collision exists for
+    [ex_HS], the identity). *)
+Theorem C12_lax_lookup_refuted :
+  exists (t : list (rev bytes)) (f : file) (r : rev bytes) (old : list bytes) (fs : list bool),
+    tbl_get t (f_version f) = Some r /\ 0 < r_applied r /\ recorded bytes ex_HS r old /\
+    firstn (r_applied r) (f_stmts f) <> firstn (r_applied r) old /\
+    (forall j, concat (firstn (S j) (f_stmts f)) <> concat (firstn (S j) old) ->
+               ex_HS (concat (firstn (S j) (f_stmts f))) <> ex_HS (concat (firstn (S j) old))) /\
+    exists t' fs' es,
+      execute_st_lax bytes bytes_eqb ex_HS f t fs = (SExec ODone, t', fs', es) /\
+      journal es = map (pair (f_version f)) (f_stmts f) /\ t' <> t.
+Proof.
+  exists [ex_rev], ex_file_changed, ex_rev, ex_old, [true].
+  split; [reflexivity|]. split; [vm_compute; auto|]. split; [vm_compute; auto|].
+  split; [vm_compute; discriminate|]. split; [intros j H; exact H|].
+  vm_compute. eexists _, _, _. split; [reflexivity|]. split; [reflexivity|discriminate].
+Qed.
+Print Assumptions C12_lax_lookup_refuted.
